@@ -41,11 +41,16 @@ def run_shard(spec, shard):
         ast, text, used = diff.make_query(r, shard, filters=True, names=NAMES, min_segs=1, max_segs=3, doc=doc,
                                           max_filter_depth=3 if tier == "thorough" else 2)
         feats = Q.features(ast)
-        if "filter" not in feats:
-            # force a filter segment
-            g = Q.QGen(r, names=NAMES + Q.pools(doc)[0][:6], strings=Q.pools(doc)[1][:6] + ["a", ""],
-                       numbers=Q.pools(doc)[2][:6])
-            ast = ["q", "$", ast[2][:2] + [[r.choice(["child", "child", "desc"]), [["filter", g.logical(1, 2)]]]]]
+        if "filter" not in feats or r.random() < 0.5:
+            # make sure a filter is applied to a node the query really reaches
+            dn, ds, dnum = Q.pools(doc)
+            g = Q.QGen(r, names=list(dict.fromkeys(dn))[:8] + NAMES[:2], strings=list(dict.fromkeys(ds))[:6] + ["a", ""],
+                       numbers=dnum[:8], max_filter_depth=3 if tier == "thorough" else 2)
+            g.doc = doc
+            g.evalr = ev.Evaluator()
+            base = [s for s in ast[2] if "filter" not in Q.features(["q", "$", [s]])][:2]
+            seg = diff.guided_filter_segment(r, g, base, doc)
+            ast = ["q", "$", base + [seg] + ([g.segment(0)] if r.random() < 0.3 else [])]
             if diff.arg_starts_with_not_or_paren(ast):
                 shard.excluded["R:function-argument-starting-with-!-or-("] += 1
                 return
